@@ -30,6 +30,8 @@ def run(ctx):
     ctx.floor("R4a", "Decoder impls", 14, len(decs))
     stream_decs = [b for b in decs if not is_datagram(prog, b)]
     ctx.floor("R4a", "stream decoders", 11, len(stream_decs))
+    from .common import import_length_predictor_agreement
+    import_length_predictor_agreement(ctx, "R4g")
     # functions reached from stream decoders only
     reach = {}
     for b in stream_decs:
